@@ -368,10 +368,10 @@ fn walk(root: &Path, dir: &Path, root_s: &str, out: &mut BTreeMap<String, FileSt
             let bytes = std::fs::read(&p).unwrap_or_default();
             // file contents may mention the sandbox root (e.g. `input_filename`): report them
             // with the root token so that they compare equal to what stdout reports
-            let bytes = match String::from_utf8(bytes) {
-                Ok(s) if s.contains(root_s) => World::unsubst(&s, root_s).into_bytes(),
-                Ok(s) => s.into_bytes(),
-                Err(e) => e.into_bytes(),
+            let bytes = if contains(&bytes, root_s.as_bytes()) {
+                replace_bytes(&bytes, root_s.as_bytes(), ROOT_TOKEN.as_bytes())
+            } else {
+                bytes
             };
             out.insert(
                 rel,
@@ -550,6 +550,14 @@ impl<'a> Run<'a> {
             Obj::Stdout => o == Some("stdout"),
             Obj::Stderr => o == Some("stderr"),
             Obj::AnyFile => op.in_sandbox() && !op.is_std(),
+            Obj::Prefix(p) => {
+                let want = if p.starts_with('/') {
+                    p.clone()
+                } else {
+                    format!("{ROOT_TOKEN}/{p}")
+                };
+                o.is_some_and(|o| o.starts_with(&want))
+            }
             Obj::Path(p) => {
                 let want = if p.starts_with('/') {
                     p.clone()
@@ -597,7 +605,7 @@ impl<'a> Run<'a> {
                 } => {
                     *class == op.class && self.obj_matches(obj, op) && {
                         let k = match obj {
-                            Obj::Any => n_any,
+                            Obj::Any | Obj::Prefix(_) => n_any,
                             Obj::AnyFile => n_anyfile.unwrap_or(u32::MAX),
                             _ => n_here,
                         };
